@@ -940,3 +940,76 @@ def r46_update_formula(facts):
         if not n_ctor:
             c.unk("rate:%s" % adt, where0, "no construction of %s found in the crate" % adt)
     return c
+
+
+# ------------------------------------------------------------------ R48
+
+def r48_update_does_not_need_unique_buffers(facts):
+    """UPDATE-SHARED-READS: Optimizer::update reads parameters and gradients through shared views; it never moves an array's buffer out (Vec::from(array), Rc::try_unwrap / into_inner / get_mut + unwrap), which panics whenever the buffer is shared - a gradient delivered unchanged by an addition or a reshape shares its buffer with the delta above it"""
+    c = Ctx("R48", facts, "Optimizer::update does not require unique ownership of array buffers")
+    fl = facts.float or "f64"
+    impls = [b for b in facts.fns() if b.get("impl_trait_def") == "corgi::optimizer::Optimizer" and b.get("name") == "update"]
+    c.floor("Optimizer::update implementations", len(impls), 1)
+    for u in impls:
+        where0 = "%s:%d" % (rel(u["file"]), u["sp"][0])
+        hit = None
+        n_reads = 0
+        for nb in _update_bodies(facts, u):
+            for n in walk(facts.root(nb)):
+                if n.get("k") != "Call":
+                    continue
+                r, cn = resolved(n) or "", callee(n) or ""
+                if r in ("corgi::array::Array::values", "corgi::array::Array::dimensions"):
+                    n_reads += 1
+                arg_tys = [(a.get("ty") or "") for a in n["args"] if isinstance(a, dict)]
+                if r.startswith("<alloc::vec::Vec<%s> as core::convert::From<%s>>" % (fl, ARRAY)) or \
+                        (cn in ("core::convert::Into::into", "core::convert::From::from") and ARRAY in arg_tys and "Vec<%s>" % fl in (n.get("ty") or "")):
+                    hit = hit or (nb, n, "`%s` moves the values out of an array" % show(n)[:60])
+                elif cn in ("alloc::rc::Rc::<T>::try_unwrap", "alloc::rc::Rc::<T, A>::try_unwrap", "alloc::rc::Rc::<T>::into_inner", "alloc::rc::Rc::<T, A>::into_inner",
+                            "alloc::rc::Rc::<T>::get_mut", "alloc::rc::Rc::<T, A>::get_mut"):
+                    hit = hit or (nb, n, "`%s` needs the only reference to a buffer" % show(n)[:60])
+        inst = "shared-reads:%s" % u["def"]
+        if hit:
+            c.bad(inst, loc(hit[0], hit[1]), "%s: this panics (or silently skips) whenever the buffer is shared, and a gradient that was delivered unchanged by an addition, "
+                  "a reshape or a caller-held seed shares its buffer; update would stop half-way, with some parameters stepped and some gradients already taken" % hit[2])
+        else:
+            c.ok(inst, where0, "parameters and gradients are read through `values()` / `dimensions()` only (%d reads); nothing requires unique ownership of a buffer" % n_reads)
+    return c
+
+
+# ------------------------------------------------------------------ R50
+
+def r50_only_update_reseats_handles(facts):
+    """HANDLE-RESEAT: the only place where an existing array handle is made to show another array (`*p = ..`, mem::replace / swap / take through a `&mut Array`) is Optimizer::update; no forward pass, backward pass or accessor replaces what a handle shows"""
+    c = Ctx("R50", facts, "only Optimizer::update re-seats an array handle")
+    impls = [b for b in facts.fns() if b.get("impl_trait_def") == "corgi::optimizer::Optimizer" and b.get("name") == "update"]
+    allowed = set()
+    for u in impls:
+        for nb in _update_bodies(facts, u):
+            allowed.add(nb["def"])
+    MUT = "&mut " + ARRAY
+    n_sites = 0
+    for b in facts.bodies:
+        root = facts.root(b)
+        if root is None:
+            continue
+        for n in walk(root):
+            site = None
+            if n.get("k") == "Assign":
+                l = strip(n["l"])
+                if l.get("k") == "Deref" and (strip(l["e"]).get("ty") or "") in (MUT, "&mut " + MUT):
+                    site = "`%s = ..`" % show(l)[:40]
+            elif n.get("k") == "Call" and (callee(n) or "") in ("core::mem::replace", "core::mem::swap", "core::mem::take") and n["args"] \
+                    and (strip(n["args"][0]).get("ty") or "") == MUT:
+                site = "`%s`" % show(n)[:50]
+            if site is None:
+                continue
+            n_sites += 1
+            inst = "reseat:%s" % b["def"]
+            if b["def"] in allowed:
+                c.ok(inst, loc(b, n), "a parameter handle is re-seated inside Optimizer::update")
+            else:
+                c.bad(inst, loc(b, n), "%s makes an existing handle show another array outside Optimizer::update: the dimensions / values seen through that handle change "
+                      "without an update (a clone taken before still shows the old array, so the handle and its clones disagree)" % site)
+    c.floor("stores through a `&mut Array`", n_sites, 1)
+    return c
